@@ -222,7 +222,15 @@ func processors(files []*ast.File, consts map[string]int64) []procFact {
 // ---- skeletons
 
 type skOpts struct {
-	name func(c *ast.CallExpr) string // "" = not interesting
+	name    func(c *ast.CallExpr) string // "" = not interesting
+	compact bool                         // drop `return`s and empty branches/loops (log-only ifs, guard clauses) from the skeleton
+}
+
+func wrapSk(kind string, body []string, o skOpts) []string {
+	if o.compact && len(body) == 0 {
+		return nil
+	}
+	return []string{kind + " [" + strings.Join(body, ", ") + "]"}
 }
 
 func lq(s string) string { return strconv.Quote(s) }
@@ -270,10 +278,10 @@ func skeleton(stmts []ast.Stmt, o skOpts, inGo bool, locals map[string]bool) []s
 				out = append(out, ".spawn [.call "+lq(exprName(x.Call.Fun))+"]")
 			}
 		case *ast.ForStmt:
-			out = append(out, ".loop ["+strings.Join(skeleton(x.Body.List, o, inGo, locals), ", ")+"]")
+			out = append(out, wrapSk(".loop", skeleton(x.Body.List, o, inGo, locals), o)...)
 		case *ast.RangeStmt:
 			exprCalls(x.X)
-			out = append(out, ".loop ["+strings.Join(skeleton(x.Body.List, o, inGo, locals), ", ")+"]")
+			out = append(out, wrapSk(".loop", skeleton(x.Body.List, o, inGo, locals), o)...)
 		case *ast.DeferStmt:
 			if n := o.name(x.Call); n != "" {
 				out = append(out, ".deferCall "+lq(n))
@@ -283,11 +291,11 @@ func skeleton(stmts []ast.Stmt, o skOpts, inGo bool, locals map[string]bool) []s
 				out = append(out, skeleton([]ast.Stmt{x.Init}, o, inGo, locals)...)
 			}
 			exprCalls(x.Cond)
-			out = append(out, ".branch ["+strings.Join(skeleton(x.Body.List, o, inGo, locals), ", ")+"]")
+			out = append(out, wrapSk(".branch", skeleton(x.Body.List, o, inGo, locals), o)...)
 			if x.Else != nil {
 				switch e := x.Else.(type) {
 				case *ast.BlockStmt:
-					out = append(out, ".branch ["+strings.Join(skeleton(e.List, o, inGo, locals), ", ")+"]")
+					out = append(out, wrapSk(".branch", skeleton(e.List, o, inGo, locals), o)...)
 				case *ast.IfStmt:
 					out = append(out, skeleton([]ast.Stmt{e}, o, inGo, locals)...)
 				}
@@ -330,7 +338,9 @@ func skeleton(stmts []ast.Stmt, o skOpts, inGo bool, locals map[string]bool) []s
 			for _, r := range x.Results {
 				exprCalls(r)
 			}
-			out = append(out, ".call \"return\"")
+			if !o.compact {
+				out = append(out, ".call \"return\"")
+			}
 		case *ast.SwitchStmt, *ast.TypeSwitchStmt, *ast.SelectStmt:
 			ast.Inspect(x, func(m ast.Node) bool {
 				if cc, ok := m.(*ast.CaseClause); ok {
@@ -731,6 +741,7 @@ func main() {
 	p("]\n\n")
 	p("%s", orderFacts(repo)) // C12 (order_facts.go)
 	p("%s", concFacts(listFiles)) // C20 (conc_facts.go)
+	factoryFacts(repo, func(f string, a ...any) { p(f, a...) }) // C01 C03 C05 (factory_facts.go)
 	p("end Ioc.Facts\n")
 	fmt.Print(b.String())
 }
